@@ -552,6 +552,15 @@ they are listed in §8 with the property whose check found them.
   (fixed, f811caf: accounting and delivery are two functions of the session now; the routing model carries
   the count, `every_transfer_counted`, and the `txn` runs — registered for C07 as well — judge every flow a
   listener with a small session window sends; corpus C18/006).
+  And a fifth, recorded and NOT repaired (known finding, C09 `resource:link-credit-lost-by-rollback`): the
+  deliveries of a transaction that is rolled back never reach the receiving link, so the link never counts
+  them — its flows go on stating the old delivery-count, and a sender that respects the credit is left with
+  none for good (link credit 4, four posts, rollback: delivery-count 0, link-credit 4 after four deliveries).
+  The repair is not small: the link has to account for deliveries it is never handed (delivery-count, the
+  count towards the automatic top-up, the session's record of unsettled ids), on rollback and when a controller
+  disappears; that is a change to the link's accounting paths which C09's model covers and which there was
+  no time left to redo and re-verify in this session. The `txn` runs (registered for C09 with ten fixed cases:
+  commit as the control, rollback as the finding) print it as KNOWN-FINDING.
   Not modelled: what the resuming attach exchanges (the unsettled maps), and in `TxnRoute` whether the named
   transaction is live (that is `Amqp.Txn`, at the level of whole posts). Routing and reassembly are composed
   (`post_work_in_order`, `committed_post_is_the_post_as_written`: what the commit replays to a link is the
